@@ -22,6 +22,10 @@
 //! Part (e): DgramServer::reconfigure lowers/raises the response size limit
 //! between requests; product of (l1, l2, service size, advertised size).
 //!
+//! Part (f): three pipelined queries; a write fault (stall longer / shorter
+//! than the write timeout followed by the reader resuming, stall for ever,
+//! write error) after every octet position of the response stream.
+//!
 //! Tiers: (a) quick = boundary offsets {-18,-17,-12,-11,-10,-1,0,+1} around
 //! {512,513,1232,4096,65535}, thorough = every offset -24..=+2 and six more
 //! advertised sizes; (b) quick <= 3 deviations, thorough <= 4.
@@ -39,7 +43,8 @@ use domain::net::server::middleware::mandatory::MandatoryMiddlewareSvc;
 use domain::net::server::service::{CallResult, Service, ServiceError, ServiceResult};
 use domain::net::server::sock::{AsyncAccept, AsyncDgramSock};
 use domain::net::server::stream::{self, StreamServer};
-use domain::net::server::util::{mk_builder_for_target, service_fn};
+use domain::base::iana::OptRcode;
+use domain::net::server::util::{mk_builder_for_target, mk_error_response, service_fn};
 use futures_util::stream::Stream;
 use futures_util::{FutureExt, StreamExt};
 use mc::envx::{explore, Chooser};
@@ -255,6 +260,9 @@ enum Transport {
 enum SizeSpec {
     Min,
     Abs(usize),
+    /// the service answers `Ok(mk_error_response(request, SERVFAIL))`, i.e.
+    /// an error response that always carries an OPT record
+    MkError,
 }
 
 #[derive(Clone, Debug)]
@@ -265,6 +273,9 @@ struct ACase {
     resp_opt: u8, // 0 none, 1 small OPT, 2 OPT with 300 octets of padding
     qlong: bool,
     layout: u8, // 0 all records in answer, 1 spread over the three sections
+    /// 1: the service's last builder operation is a push that fails (a record
+    /// that cannot fit in 65535 octets) and is rolled back
+    tail: u8,
 }
 
 impl ACase {
@@ -288,8 +299,8 @@ impl ACase {
         };
         json!({
             "part": "a", "transport": t, "limit": limit, "edns": ek, "edns_size": ev,
-            "size": match self.size { SizeSpec::Min => json!("min"), SizeSpec::Abs(n) => json!(n) },
-            "resp_opt": self.resp_opt, "qlong": self.qlong, "layout": self.layout,
+            "size": match self.size { SizeSpec::Min => json!("min"), SizeSpec::Abs(n) => json!(n), SizeSpec::MkError => json!("mk-error") },
+            "resp_opt": self.resp_opt, "qlong": self.qlong, "layout": self.layout, "tail": self.tail,
         })
     }
     fn from_json(v: &Value) -> Option<ACase> {
@@ -312,6 +323,7 @@ impl ACase {
         };
         let size = match v["size"].as_u64() {
             Some(n) => SizeSpec::Abs(n as usize),
+            None if v["size"].as_str() == Some("mk-error") => SizeSpec::MkError,
             None => SizeSpec::Min,
         };
         Some(ACase {
@@ -321,6 +333,7 @@ impl ACase {
             resp_opt: v["resp_opt"].as_u64()? as u8,
             qlong: v["qlong"].as_bool()?,
             layout: v["layout"].as_u64()? as u8,
+            tail: v["tail"].as_u64().unwrap_or(0) as u8,
         })
     }
     fn request(&self) -> Vec<u8> {
@@ -368,6 +381,7 @@ struct ASvcSpec {
     size: SizeSpec,
     resp_opt: u8,
     layout: u8,
+    tail: u8,
     out: Arc<Mutex<Option<Vec<u8>>>>,
     unconstructible: Arc<AtomicBool>,
 }
@@ -395,7 +409,23 @@ fn fill_plan(mut r: usize) -> Option<Vec<usize>> {
     Some(v)
 }
 
+/// The service's last builder operation: a push that cannot fit and is
+/// rolled back by the builder.
+fn failed_push(add: &mut domain::base::message_builder::AdditionalBuilder<domain::base::StreamTarget<Vec<u8>>>) -> bool {
+    let big = vec![0xEEu8; 65535];
+    let d = UnknownRecordData::from_octets(Rtype::from_int(0xFF00), &big[..]).unwrap();
+    add.push((Name::root_ref(), Class::IN, 60u32, d)).is_err()
+}
+
 fn a_handler(req: Request<Vec<u8>, ()>, spec: ASvcSpec) -> ServiceResult<Vec<u8>> {
+    if spec.size == SizeSpec::MkError {
+        let mut add = mk_error_response::<Vec<u8>, Vec<u8>>(req.message(), OptRcode::SERVFAIL);
+        if spec.tail == 1 && !failed_push(&mut add) {
+            spec.unconstructible.store(true, Ordering::SeqCst);
+        }
+        *spec.out.lock().unwrap() = Some(add.as_slice().to_vec());
+        return Ok(CallResult::new(add));
+    }
     let b = mk_builder_for_target::<Vec<u8>>();
     let mut ans = b.start_answer(req.message(), Rcode::NOERROR)?;
     let base = ans.as_slice().len();
@@ -407,7 +437,7 @@ fn a_handler(req: Request<Vec<u8>, ()>, spec: ASvcSpec) -> ServiceResult<Vec<u8>
     let optlen = if spec.resp_opt == 0 { 0 } else { 11 + 4 + pad as usize };
     let min = base + optlen;
     let plan = match spec.size {
-        SizeSpec::Min => Vec::new(),
+        SizeSpec::Min | SizeSpec::MkError => Vec::new(),
         SizeSpec::Abs(s) => {
             if s < min {
                 spec.unconstructible.store(true, Ordering::SeqCst);
@@ -455,6 +485,9 @@ fn a_handler(req: Request<Vec<u8>, ()>, spec: ASvcSpec) -> ServiceResult<Vec<u8>
             o.padding(pad)
         })?;
     }
+    if spec.tail == 1 && !failed_push(&mut add) {
+        spec.unconstructible.store(true, Ordering::SeqCst);
+    }
     *spec.out.lock().unwrap() = Some(add.as_slice().to_vec());
     Ok(CallResult::new(add))
 }
@@ -465,6 +498,8 @@ struct AOut {
     unconstructible: bool,
     /// Ok(Some(bytes)) response, Ok(None) feedback only, Err(service error)
     items: Vec<Result<Option<Vec<u8>>, String>>,
+    /// `as_stream_slice()` (two-octet length + message) of every response
+    stream_slices: Vec<Vec<u8>>,
     not_ready: bool,
 }
 
@@ -474,6 +509,7 @@ fn run_a(c: &ACase) -> Result<AOut, String> {
         size: c.size,
         resp_opt: c.resp_opt,
         layout: c.layout,
+        tail: c.tail,
         out: Arc::new(Mutex::new(None)),
         unconstructible: Arc::new(AtomicBool::new(false)),
     };
@@ -501,6 +537,7 @@ fn run_a(c: &ACase) -> Result<AOut, String> {
             (),
         );
         let mut items = Vec::new();
+        let mut stream_slices: Vec<Vec<u8>> = Vec::new();
         let mut not_ready = false;
         match stack.call(request).now_or_never() {
             None => not_ready = true,
@@ -513,7 +550,11 @@ fn run_a(c: &ACase) -> Result<AOut, String> {
                     Some(None) => break,
                     Some(Some(Ok(cr))) => {
                         let (resp, _fb) = cr.into_inner();
-                        items.push(Ok(resp.map(|r| r.finish().as_dgram_slice().to_vec())));
+                        items.push(Ok(resp.map(|r| {
+                            let t = r.finish();
+                            stream_slices.push(t.as_stream_slice().to_vec());
+                            t.as_dgram_slice().to_vec()
+                        })));
                     }
                     Some(Some(Err(e))) => items.push(Err(format!("{e}"))),
                 }
@@ -522,16 +563,17 @@ fn run_a(c: &ACase) -> Result<AOut, String> {
                 }
             },
         }
-        Ok::<_, String>((items, not_ready))
+        Ok::<_, String>((items, stream_slices, not_ready))
     });
     match r {
         Err(p) => Err(p),
         Ok(Err(e)) => Err(format!("HARNESS: {e}")),
-        Ok(Ok((items, not_ready))) => Ok(AOut {
+        Ok(Ok((items, stream_slices, not_ready))) => Ok(AOut {
             req,
             svc_bytes: spec.out.lock().unwrap().clone(),
             unconstructible: spec.unconstructible.load(Ordering::SeqCst),
             items,
+            stream_slices,
             not_ready,
         }),
     }
@@ -665,6 +707,15 @@ fn judge_a(c: &ACase, out: &AOut) -> (Vec<(String, String)>, String, bool) {
             }
         }
         Transport::Tcp(_) => {
+            if let Some(ss) = out.stream_slices.first() {
+                let announced = if ss.len() >= 2 { u16::from_be_bytes([ss[0], ss[1]]) as usize } else { usize::MAX };
+                if ss.len() != fin.len() + 2 || announced != fin.len() || ss[2..] != fin[..] {
+                    v.push((
+                        "C16|a|tcp|stream-length-prefix!=message-length".into(),
+                        format!("the stream form of the response announces {announced} octets but the message has {} ({} octets follow the prefix)", fin.len(), ss.len().saturating_sub(2)),
+                    ));
+                }
+            }
             if tc || dropped {
                 v.push((
                     "C16|a|tcp|truncated".into(),
@@ -702,7 +753,7 @@ fn a_cases(quick: bool) -> Vec<ACase> {
         }
     }
     sizes.insert(300);
-    let mut size_menu = vec![SizeSpec::Min];
+    let mut size_menu = vec![SizeSpec::Min, SizeSpec::MkError];
     size_menu.extend(sizes.into_iter().map(SizeSpec::Abs));
     let mut edns = vec![EdnsReq::Absent];
     let mut es: Vec<u16> = vec![0, 511, 512, 513, 1232, 4096, 65535];
@@ -724,7 +775,9 @@ fn a_cases(quick: bool) -> Vec<ACase> {
                 for resp_opt in 0..3u8 {
                     for qlong in [false, true] {
                         for layout in 0..2u8 {
-                            v.push(ACase { transport, edns: e, size, resp_opt, qlong, layout });
+                            for tail in 0..2u8 {
+                                v.push(ACase { transport, edns: e, size, resp_opt, qlong, layout, tail });
+                            }
                         }
                     }
                 }
@@ -785,8 +838,12 @@ const SK_DELAY_LONG: usize = 4;
 const SK_ERROR: usize = 5;
 #[allow(dead_code)]
 const SK_STREAM_ERR: usize = 6;
-const SK_N: usize = 7;
-const SK_NAMES: [&str; SK_N] = ["single", "stream3", "stream3-spaced", "delayed-100ms", "delayed-31s", "error", "stream2-then-error"];
+/// `Ok(mk_error_response(..))`: an error response carrying an OPT record
+const SK_OK_ERRRESP: usize = 7;
+/// a response whose last builder operation is a rolled-back failed push
+const SK_ROLLBACK: usize = 8;
+const SK_N: usize = 9;
+const SK_NAMES: [&str; SK_N] = ["single", "stream3", "stream3-spaced", "delayed-100ms", "delayed-31s", "error", "stream2-then-error", "ok(mk_error_response)", "rolled-back-push-last"];
 
 type BoxStream = Pin<Box<dyn Stream<Item = ServiceResult<Vec<u8>>> + Send>>;
 
@@ -836,6 +893,13 @@ impl Service<Vec<u8>, ()> for BehSvc {
                 self.env.flag("svc-slower-than-idle-timeout");
             }
             SK_ERROR => items.push_back(Err(ServiceError::InternalError)),
+            SK_OK_ERRRESP => items.push_back(Ok(CallResult::new(mk_error_response::<Vec<u8>, Vec<u8>>(request.message(), OptRcode::REFUSED)))),
+            SK_ROLLBACK => items.push_back(mk_item(&request, 0).map(|cr| {
+                let (resp, _) = cr.into_inner();
+                let mut add = resp.expect("mk_item makes a response");
+                let _ = failed_push(&mut add);
+                CallResult::new(add)
+            })),
             _ => {
                 items.push_back(mk_item(&request, 0));
                 items.push_back(mk_item(&request, 1));
@@ -1416,6 +1480,12 @@ struct StreamState {
     shutdown: bool,
     writes: Vec<&'static str>,
     reads_interrupted: u32,
+    /// the peer does not read until this instant, then reads again
+    stalled_until: Option<tokio::time::Instant>,
+    /// scripted fault (part (f)): after this many octets in total have been
+    /// accepted, answer the next write with the given mode
+    script: Option<(usize, usize)>,
+    script_fired: bool,
 }
 
 struct StreamInner {
@@ -1501,13 +1571,37 @@ impl AsyncWrite for MockStream {
         if st.stalled {
             return Poll::Pending;
         }
-        let c = if st.pend_once {
+        if let Some(until) = st.stalled_until {
+            if tokio::time::Instant::now() < until {
+                let w = cx.waker().clone();
+                tokio::spawn(async move {
+                    tokio::time::sleep_until(until).await;
+                    w.wake();
+                });
+                return Poll::Pending;
+            }
+            st.stalled_until = None;
+        }
+        let mut c = if st.pend_once {
             st.pend_once = false;
             0
+        } else if st.script.is_some() {
+            0
         } else {
-            self.choose(5, "tcp-write")
+            self.choose(6, "tcp-write")
         };
-        let name = ["all", "one-octet", "pending-once", "error", "stalled"][c];
+        if let (Some((at, mode)), false) = (st.script, st.script_fired) {
+            let avail = at.saturating_sub(st.out.len());
+            if avail == 0 {
+                st.script_fired = true;
+                c = mode;
+            } else if avail < buf.len() {
+                st.writes.push("scripted-partial");
+                st.out.extend_from_slice(&buf[..avail]);
+                return Poll::Ready(Ok(avail));
+            }
+        }
+        let name = ["all", "one-octet", "pending-once", "error", "stalled", "stall-31s-then-resume", "stall-5s-then-resume"][c];
         st.writes.push(name);
         match c {
             0 => {
@@ -1528,11 +1622,30 @@ impl AsyncWrite for MockStream {
                 st.write_fail = true;
                 Poll::Ready(Err(io::ErrorKind::BrokenPipe.into()))
             }
-            _ => {
+            4 => {
                 st.write_fail = true;
                 st.stalled = true;
                 Poll::Pending
             }
+            5 | 6 => {
+                // the peer stops reading for longer (5) / shorter (6) than the
+                // default response_write_timeout of 30 s, then reads again
+                let d = if c == 5 {
+                    st.write_fail = true;
+                    31
+                } else {
+                    5
+                };
+                let until = tokio::time::Instant::now() + Duration::from_secs(d);
+                st.stalled_until = Some(until);
+                let w = cx.waker().clone();
+                tokio::spawn(async move {
+                    tokio::time::sleep_until(until).await;
+                    w.wake();
+                });
+                Poll::Pending
+            }
+            _ => unreachable!(),
         }
     }
     fn poll_flush(self: Pin<&mut Self>, _cx: &mut Context<'_>) -> Poll<io::Result<()>> {
@@ -1685,12 +1798,13 @@ struct StreamObs {
     a_setup_failed: bool,
 }
 
-async fn drive_stream(env: Arc<Env>, plan: &StreamPlan) -> StreamObs {
+async fn drive_stream(env: Arc<Env>, plan: &StreamPlan, script: Option<(usize, usize)>) -> StreamObs {
     let listener = MockListener::new(&env);
     let srv = Arc::new(StreamServer::with_config(listener.clone(), VecBufSource, mk_server_service(&env), stream::Config::new()));
     let s2 = srv.clone();
     let jh = tokio::spawn(async move { s2.run().await });
     let a = MockStream::new(&env);
+    a.0.st.lock().unwrap().script = script;
     let addr_a: SocketAddr = "192.0.2.20:4000".parse().unwrap();
     listener.connect(a.clone(), addr_a);
     // a concurrent, well-behaved connection with default environment answers
@@ -1786,6 +1900,26 @@ fn judge_conn(comp: &str, conn: &ConnObs, log: &Log, addr: SocketAddr, fixed: Op
     let (msgs, leftover) = deframe(&conn.out);
     if leftover != 0 && !conn.write_fail && conn.client_abort != Some("reset") {
         viol.push((format!("C16|{comp}|framing|partial-frame-at-end|{suspects}"), format!("{leftover} octets written that do not form a length-prefixed message")));
+    } else if leftover != 0 {
+        // the server gave up in the middle of a frame (write failure): what
+        // is left must be the clean head of ONE response frame, nothing else
+        let tail = &conn.out[conn.out.len() - leftover..];
+        let clean = log.produced.iter().filter(|p| p.1 == addr).any(|p| match &p.2 {
+            Produced::Resp(b) => {
+                let mut f = (b.len() as u16).to_be_bytes().to_vec();
+                f.extend_from_slice(b);
+                f.len() > tail.len() && f.starts_with(tail)
+            }
+            // a server-made error response: its octets are not known here
+            Produced::Err => true,
+            Produced::Feedback => false,
+        }) || frames.iter().any(|f| f.len() >= 3 && f[2] & 0x80 != 0);
+        if !clean {
+            viol.push((
+                format!("C16|{comp}|framing|octets-after-an-abandoned-frame|{suspects}"),
+                format!("the last {leftover} octets written ({}) are not the head of one response frame", hex(tail)),
+            ));
+        }
     }
     let reqs: Vec<ReqInfo> = frames.iter().take(first_short.unwrap_or(frames.len())).map(|f| ReqInfo::new(f.clone())).collect();
     let mut by_id: BTreeMap<u16, Vec<Vec<u8>>> = BTreeMap::new();
@@ -1836,24 +1970,49 @@ fn judge_conn(comp: &str, conn: &ConnObs, log: &Log, addr: SocketAddr, fixed: Op
     (msgs.len(), expected_total)
 }
 
-fn run_stream(ch: &mut Chooser, col: &Collector, depth: Option<usize>) {
-    let env = Env::new(std::mem::take(ch), depth.is_some());
+/// octets the server wrote on connection A in the last write-cut execution
+/// (used once, sequentially, to size the sweep of part (f))
+static WRITE_CUT_TOTAL: AtomicU64 = AtomicU64::new(0);
+
+const CUT_MODES: [(usize, &str); 4] = [
+    (5, "peer-stalls-31s(>write-timeout)-then-reads"),
+    (6, "peer-stalls-5s(<write-timeout)-then-reads"),
+    (4, "peer-stalls-for-ever"),
+    (3, "write-error"),
+];
+
+/// Three pipelined well-formed queries in one segment (part (f)).
+fn plan_three_valid() -> StreamPlan {
+    let mut bytes = Vec::new();
+    for slot in 0..3 {
+        bytes.extend_from_slice(&req_stream_bytes(slot, RK_VALID));
+    }
+    StreamPlan { chunks: vec![(false, bytes)], kinds: vec![RK_VALID; 3] }
+}
+
+/// `depth`: part (c); `cut`: part (f) = (octets accepted before the fault,
+/// index into CUT_MODES); neither: one execution of the exploration.
+fn run_stream(ch: &mut Chooser, col: &Collector, depth: Option<usize>, cut: Option<(usize, usize)>) {
+    let env = Env::new(std::mem::take(ch), depth.is_some() || cut.is_some());
     let _ = take_task_panics();
-    let plan = match depth {
-        Some(n) => plan_depth(n),
-        None => plan_from_choices(&env),
+    let plan = match (depth, cut) {
+        (Some(n), _) => plan_depth(n),
+        (None, Some(_)) => plan_three_valid(),
+        (None, None) => plan_from_choices(&env),
     };
+    let script = cut.map(|(at, m)| (at, CUT_MODES[m].0));
     let env2 = env.clone();
     let rt = new_runtime();
-    let res = guard(|| rt.block_on(drive_stream(env2, &plan)));
+    let res = guard(|| rt.block_on(drive_stream(env2, &plan, script)));
     drop(rt);
     *ch = env.ch.lock().unwrap().clone();
     let panics = take_task_panics();
-    let replay = match depth {
-        Some(n) => json!({"part": "depth", "n": n}),
-        None => json!({"part": "stream", "choices": ch.choices(), "trace": ch.describe()}),
+    let replay = match (depth, cut) {
+        (Some(n), _) => json!({"part": "depth", "n": n}),
+        (None, Some((at, m))) => json!({"part": "write-cut", "cut": at, "mode": m, "mode_name": CUT_MODES[m].1}),
+        (None, None) => json!({"part": "stream", "choices": ch.choices(), "trace": ch.describe()}),
     };
-    let part = if depth.is_some() { "stream-depth" } else { "stream" };
+    let part = if depth.is_some() { "stream-depth" } else if cut.is_some() { "stream-write-cut" } else { "stream" };
     let mut viol: Vec<(String, String)> = Vec::new();
     for p in &panics {
         viol.push((format!("C16|stream|panic|{}", panic_class(p)), format!("panic in the stream server: {p}")));
@@ -1869,14 +2028,20 @@ fn run_stream(ch: &mut Chooser, col: &Collector, depth: Option<usize>) {
         }
     };
     let log = env.log.lock().unwrap();
-    let fixed: Option<&str> = depth.map(|n| if n > 10 { "pipelined-requests>max_queued_responses(10)" } else { "pipelined-requests<=max_queued_responses(10)" });
+    let mut fixed: Option<&str> = depth.map(|n| if n > 10 { "pipelined-requests>max_queued_responses(10)" } else { "pipelined-requests<=max_queued_responses(10)" });
+    if let Some((_, m)) = cut {
+        fixed = Some(CUT_MODES[m].1);
+    }
     if !obs.alive {
         viol.push(("C16|stream|server-task-exited".to_string(), "StreamServer::run returned before shutdown".into()));
     }
     if !obs.stopped {
         viol.push(("C16|stream|server-task-ignores-shutdown".into(), "StreamServer::run did not return after shutdown()".into()));
     }
-    let comp_a = if depth.is_some() { "stream-depth" } else { "stream" };
+    let comp_a = part;
+    if cut.is_some() {
+        WRITE_CUT_TOTAL.store(obs.a.out.len() as u64, Ordering::SeqCst);
+    }
     let (written_a, expected_a) = if obs.a_setup_failed {
         if !obs.a.out.is_empty() {
             viol.push(("C16|stream|octets-written-to-a-connection-that-was-never-set-up".to_string(), format!("{} octets", obs.a.out.len())));
@@ -1896,7 +2061,10 @@ fn run_stream(ch: &mut Chooser, col: &Collector, depth: Option<usize>) {
     let st = &col.stats;
     st.eval();
     let mut counts: BTreeMap<String, u64> = BTreeMap::new();
-    if depth.is_none() {
+    if let Some((at, m)) = cut {
+        *counts.entry(format!("write-cut.{}.messages-written={written_a}", CUT_MODES[m].1)).or_insert(0) += 1;
+        let _ = at;
+    } else if depth.is_none() {
         for k in &plan.kinds {
             *counts.entry(format!("stream.req.{}", RK_NAMES[*k])).or_insert(0) += 1;
         }
@@ -1920,10 +2088,10 @@ fn run_stream(ch: &mut Chooser, col: &Collector, depth: Option<usize>) {
         *counts.entry(format!("depth.n={:02}.written={written_a:02}", depth.unwrap())).or_insert(0) += 1;
     }
     st.merge_counts(&counts);
-    if ch.deviations() >= 1 || depth.is_some() {
-        st.distinct(fnv(format!("{part}{:?}{:?}", ch.choices(), depth).as_bytes()));
+    if ch.deviations() >= 1 || depth.is_some() || cut.is_some() {
+        st.distinct(fnv(format!("{part}{:?}{:?}{:?}", ch.choices(), depth, cut).as_bytes()));
     }
-    st.sample(if depth.is_some() { 8 } else { 6 }, || json!({"part": part, "depth": depth, "trace": ch.describe(), "client_octets": obs.a.delivered.len(), "server_octets": obs.a.out.len(), "messages_written": written_a, "produced": expected_a}));
+    st.sample(if depth.is_some() { 8 } else if cut.is_some() { 14 } else { 6 }, || json!({"part": part, "depth": depth, "write_cut": cut.map(|(at, m)| json!({"octets_before_fault": at, "mode": CUT_MODES[m].1})), "trace": ch.describe(), "client_octets": obs.a.delivered.len(), "server_octets": obs.a.out.len(), "messages_written": written_a, "produced": expected_a}));
     if col.verbose {
         println!("{part} execution: trace {:?}", ch.describe());
         println!("  A delivered {} octets: {}", obs.a.delivered.len(), hex(&obs.a.delivered));
@@ -2093,12 +2261,13 @@ fn dgram_config(limit: Option<u16>) -> dgram::Config {
 fn run_reconfigure(rc: &ReconfCase, col: &Collector) {
     let env = Env::new(Chooser::default(), true);
     let _ = take_task_panics();
-    let ac = ACase { transport: Transport::Udp(rc.l1), edns: EdnsReq::Size(rc.adv), size: SizeSpec::Abs(rc.size), resp_opt: 0, qlong: false, layout: 1 };
+    let ac = ACase { transport: Transport::Udp(rc.l1), edns: EdnsReq::Size(rc.adv), size: SizeSpec::Abs(rc.size), resp_opt: 0, qlong: false, layout: 1, tail: 0 };
     let req = ac.request();
     let spec = ASvcSpec {
         size: ac.size,
         resp_opt: 0,
         layout: 1,
+        tail: 0,
         out: Arc::new(Mutex::new(None)),
         unconstructible: Arc::new(AtomicBool::new(false)),
     };
@@ -2179,7 +2348,7 @@ fn run_reconfigure(rc: &ReconfCase, col: &Collector) {
             continue;
         }
         let case_i = ACase { transport: Transport::Udp(limits[i]), ..ac.clone() };
-        let out = AOut { req: req.clone(), svc_bytes: svc_bytes[i].clone(), unconstructible: false, items: vec![Ok(Some(observed[0].data.clone()))], not_ready: false };
+        let out = AOut { req: req.clone(), svc_bytes: svc_bytes[i].clone(), unconstructible: false, items: vec![Ok(Some(observed[0].data.clone()))], stream_slices: Vec::new(), not_ready: false };
         let (v, label, _) = judge_a(&case_i, &out);
         st.count(&format!("reconfigure.{phase}.{label}"));
         for (sig, what) in v {
@@ -2269,11 +2438,15 @@ fn main() {
             Some("stream") => {
                 let choices: Vec<u32> = case["choices"].as_array().unwrap().iter().map(|x| x.as_u64().unwrap() as u32).collect();
                 let mut ch = Chooser::from_choices(&choices);
-                run_stream(&mut ch, &col, None);
+                run_stream(&mut ch, &col, None, None);
             }
             Some("depth") => {
                 let mut ch = Chooser::default();
-                run_stream(&mut ch, &col, Some(case["n"].as_u64().unwrap() as usize));
+                run_stream(&mut ch, &col, Some(case["n"].as_u64().unwrap() as usize), None);
+            }
+            Some("write-cut") => {
+                let mut ch = Chooser::default();
+                run_stream(&mut ch, &col, None, Some((case["cut"].as_u64().unwrap() as usize, case["mode"].as_u64().unwrap() as usize)));
             }
             Some("reconfigure") => {
                 let l = |k: &str| case[k].as_u64().map(|x| x as u16);
@@ -2343,7 +2516,7 @@ fn main() {
     });
     let (sx, sx_capped) = explore(bound, cap, |ch| {
         wd.enter(|| json!({"part": "stream", "choices": ch.choices()}));
-        run_stream(ch, &col, None);
+        run_stream(ch, &col, None, None);
         wd.leave();
     });
 
@@ -2353,9 +2526,25 @@ fn main() {
     for n in 1..=max_depth {
         wd.enter(|| json!({"part": "depth", "n": n}));
         let mut ch = Chooser::default();
-        run_stream(&mut ch, &col, Some(n));
+        run_stream(&mut ch, &col, Some(n), None);
         wd.leave();
     }
+
+    // ---- part (f): a write fault at every octet of the response stream -------
+    // three pipelined queries; the total the server writes without a fault
+    let wc_total: usize = {
+        let col0 = Collector { ctx: ctx.clone(), stats: Stats::new(), verbose: false };
+        let mut ch = Chooser::default();
+        run_stream(&mut ch, &col0, None, Some((usize::MAX, 0)));
+        WRITE_CUT_TOTAL.load(Ordering::SeqCst) as usize
+    };
+    let wc_cases: Vec<(usize, usize)> = (0..=wc_total).flat_map(|at| (0..CUT_MODES.len()).map(move |m| (at, m))).collect();
+    wc_cases.par_iter().for_each(|(at, m)| {
+        wd.enter(|| json!({"part": "write-cut", "cut": at, "mode": m}));
+        let mut ch = Chooser::default();
+        run_stream(&mut ch, &col, None, Some((*at, *m)));
+        wd.leave();
+    });
 
     // ---- part (d): failed connection set-ups, then a fresh connection --------
     let fs_cases = failed_setup_cases(quick);
@@ -2374,7 +2563,7 @@ fn main() {
         wd.leave();
     });
 
-    let b_execs = dg.executions + sx.executions + max_depth as u64 + fs_cases.len() as u64 + rc_cases.len() as u64;
+    let b_execs = dg.executions + sx.executions + max_depth as u64 + fs_cases.len() as u64 + rc_cases.len() as u64 + wc_cases.len() as u64;
     let evaluations = a_stats.evals() + b_execs;
     let distinct = a_stats.distinct_count() + col.stats.distinct_count();
     let mut samples = a_stats.samples();
@@ -2387,7 +2576,7 @@ fn main() {
             "traces_validated_against_impl": a_stats.evals() + b_execs,
             "evaluations": evaluations,
             "distinct_nontrivial": distinct,
-            "rule": "(a) a case is non-trivial when the middleware changed the service's response, truncated it, or it exceeds the bound; (b) an execution is non-trivial when it has >= 1 non-default choice; (c) every depth; (d) every (n, limit) pair; (e) every (l1, l2, size, advertised) tuple; distinct by hash of the case / choice vector",
+            "rule": "(a) a case is non-trivial when the middleware changed the service's response, truncated it, or it exceeds the bound; (b) an execution is non-trivial when it has >= 1 non-default choice; (c) every depth; (d) every (n, limit) pair; (e) every (l1, l2, size, advertised) tuple; (f) every (cut, mode) pair; distinct by hash of the case / choice vector",
             "exhaustive": exhaustive,
             "samples": samples,
             "part_a": {
@@ -2401,6 +2590,8 @@ fn main() {
                 "dgram": {"executions": dg.executions, "per_deviation_count": dg.per_bound, "choice_points": dg.choice_points, "max_trace": dg.max_trace, "capped": dg_capped},
                 "stream": {"executions": sx.executions, "per_deviation_count": sx.per_bound, "choice_points": sx.choice_points, "max_trace": sx.max_trace, "capped": sx_capped},
                 "pipeline_depths": max_depth,
+                "write_cut_cases": wc_cases.len(),
+                "write_cut_stream_octets": wc_total,
                 "reconfigure_cases": rc_cases.len(),
                 "failed_setup_cases": fs_cases.iter().map(|(n, l)| json!([n, l])).collect::<Vec<_>>(),
                 "histogram": col.stats.counters_json(),
@@ -2410,6 +2601,8 @@ fn main() {
             "every tokio::select! in dgram.rs, stream.rs and connection.rs is `biased;`, and each case runs on its own current-thread runtime with a paused clock, so task scheduling is deterministic without tokio_unstable/rng_seed; the only nondeterminism left is what the mocks answer, which is enumerated",
             "schedules covered are those of a single-threaded executor (FIFO run queue) combined with the enumerated arrival gaps, service delays and I/O readiness answers; preemption between arbitrary instructions on a multi-threaded runtime is not explored",
             "part (b) bounds: 3 request slots, one connection plus one concurrent and one later well-behaved connection, <= 3 (quick) / <= 4 (thorough) non-default choices among request kind, segmentation, service behaviour, client abort and every socket/stream answer (incl. poll_accept error and the accepted connection's set-up future resolving to Err)",
+            "part (f): three pipelined queries on one connection (all three responses queued before the first is written); for EVERY octet position of the response stream the client accepts exactly that many octets and then {stops reading for 31 s (> response_write_timeout 30 s) and reads again, stops for 5 s and reads again, stops for ever, fails the write}; what the client received must be whole well-formed frames of produced responses, optionally followed by the clean head of one more frame and nothing after it; a stall shorter than the write timeout excuses nothing",
+            "part (a) TCP: for every response the stack yields, StreamTarget::as_stream_slice() must be the two-octet length of the message followed by exactly the message; the service dimension includes Ok(mk_error_response()) and a last builder step that is a rolled-back failed push; part (b) services include both as behaviours, pipelined with the other requests",
             "part (e): DgramServer with limit l1 serves a request, reconfigure(l2), 1 s, a request, reconfigure(l1), 1 s, a request; l1 != l2 in {512,1232,4096,none}, EDNS 1232/4096, service sizes around every limit; the limit demanded for a request is the one configured when it is received, which is all that dgram::Config::set_max_response_size promises for reconfigure",
             "part (d): n connections whose AsyncAccept::Future resolves to Err arrive one at a time (100 ms apart), then one fresh well-behaved connection; max_concurrent_connections in {1,2,3} with n = 0..=limit+2 (quick) / limit+5 (thorough), and the default 100 with n in {1,99,100,101} (quick) / 1..=130 (thorough); a connection whose set-up failed holds no slot of the connection limit",
             "a complete frame shorter than a DNS header, a client EOF/reset, or an environment write failure on a connection excuses missing responses on THAT connection (closing such a connection is permitted, RFC 7766 6.2.4); other connections and earlier written responses are still checked",
